@@ -16,7 +16,10 @@
    handled by handle_message, messages CONSUMED by a processing element -- whose hooks run
    outside the runtime and may wake tasks through channels, tokio::spawn tasks then going
    through the scheduler's inject queue -- and the tear-down; every one of them drives the
-   runtime with one Harness::exec, the consumed message with exec of an empty callback):
+   runtime with one Harness::exec, the consumed message with exec of an empty callback; a
+   callback may request shutdown() / shutdow_and_restart_in(d): its exec runs as usual, then
+   the runtime is dropped and replaced, messages are ignored until the restart replays
+   at_sim_start):
 
    [KnownClass x] = the event x (budgets, instant, callback actions, state of the task
    system) is over budget: the first round of the executor WITHOUT budgets (one unbounded
@@ -114,6 +117,14 @@ Theorem C06_consumed_message_is_driven : forall bl br c now now0 pre s,
 Proof. exact consumed_event_timely. Qed.
 Print Assumptions C06_consumed_message_is_driven.
 
+(* A callback that requests a shutdown drives the runtime exactly as it would without the
+   request (tasks it woke are polled in that event, before buf_process tears the runtime
+   down): the exec of the callback's actions = the exec of the actions minus the request. *)
+Theorem C06_shutdown_request_keeps_exec : forall bl br c now acts s,
+  exec_event bl br c now acts s = exec_event bl br c now (no_shutdown acts) s.
+Proof. exact shutdown_request_keeps_exec. Qed.
+Print Assumptions C06_shutdown_request_keeps_exec.
+
 (* Non-vacuity: tokio's budgets (global_queue_interval 31); a wake chain through both
    executors inside one instant.  Task 0 (tokio::spawn) sends to task 1 (spawn_local) --
    which was polled before, in the LocalSet tick, and awaits its channel -- so this event is
@@ -147,7 +158,8 @@ Example C06_nonvacuous :
    RClose 4 2 3 false; REvent 1 15; RClose 4 0 0 false; RClose 5 0 0 false].
 Proof.
   split; [|vm_compute; reflexivity].
-  unfold run_within, chain_events. cbn [all_within]. repeat split; intro H; vm_compute in H; discriminate.
+  unfold run_within, chain_events. cbn [all_within]. repeat split; try exact I;
+    try (intro H; vm_compute in H; discriminate); vm_compute; try exact I; intro H; discriminate.
 Qed.
 
 Example C06_yield_is_over_budget :
@@ -173,5 +185,27 @@ Example C06_consumed_message_nonvacuous :
    REvent 1 12; RPoll 0 12 12; ROp 0 12; ROp 0 12; RClose 4 0 1 false; RClose 5 0 0 false].
 Proof.
   split; [|vm_compute; reflexivity].
-  unfold run_within. cbn [all_within]. repeat split; intro H; vm_compute in H; discriminate.
+  unfold run_within. cbn [all_within]. repeat split; try exact I;
+    try (intro H; vm_compute in H; discriminate); vm_compute; try exact I; intro H; discriminate.
+Qed.
+
+(* handle_message at instant 2 sends to tasks 0 and 1 and calls shutdow_and_restart_in(5):
+   both are polled at 2, then the runtime is replaced (RReset); the messages at 3 and 7 find
+   the module inactive (the restart event at 7 is queued behind the message scheduled for 7);
+   at_sim_start runs again at 7 and spawns fresh tasks; the message at 8 is handled. *)
+Example C06_wake_and_shutdown_nonvacuous :
+  let ts := [(false, [Recv; Log; Recv; Log]); (true, [Recv; Log])] in
+  let evs := [(1, false, [], [ASend 0]); (1, false, [], [ASend 0; ASend 1; AShutdown (Some 5)]);
+              (1, false, [], [ASend 0]); (4, false, [], [ASend 0]); (1, false, [], [ASend 1])] in
+  run_within tokio_budgets 31 ts [Spawn 0; Spawn 1] evs /\
+  run_model tokio_budgets 31 ts [Spawn 0; Spawn 1] evs =
+  [RStart 0; RPoll 1 0 0; RPoll 0 0 0; RClose 4 1 1 false;
+   REvent 0 1; RPoll 0 1 1; ROp 0 1; ROp 0 1; RClose 4 0 1 false;
+   REvent 1 2; RPoll 1 2 2; ROp 1 2; ROp 1 2; RPoll 0 2 2; ROp 0 2; ROp 0 2; RClose 4 1 1 false;
+   RReset 2; RStart 7; RPoll 1 7 7; RPoll 0 7 7; RClose 4 1 1 false;
+   REvent 4 8; RPoll 1 8 8; ROp 1 8; ROp 1 8; RClose 4 1 0 false; RClose 5 0 0 false].
+Proof.
+  split; [|vm_compute; reflexivity].
+  unfold run_within. cbn [all_within]. repeat split; try exact I;
+    try (intro H; vm_compute in H; discriminate); vm_compute; try exact I; intro H; discriminate.
 Qed.
